@@ -514,9 +514,14 @@ void check_invariants(Analyzer &a, const IProg &P, Oracle &O, std::vector<z_cfg_
   }
 }
 
+// "the inputs satisfy the precondition" is decided through the exported views of pre, which is only exact for
+// intervals, zones and octagons; for other domains (term equalities, congruences) the export over-approximates
+// pre and the clause would demand more than the property states
+bool SUMMARY_CLAUSE = true;
 template <typename Analyzer>
 void check_summaries(Analyzer &a, const IProg &P, Oracle &O, std::vector<z_cfg_ref_t> &refs, const std::string &dom, const std::string &cspec,
                      const std::string &ctx) {
+  if (!SUMMARY_CLAUSE) return;
   for (size_t f = 0; f < P.fs.size(); f++) {
     const GProg &fb = P.fs[f].body;
     if (fb.outputs.empty()) continue;
@@ -603,6 +608,7 @@ void run_program(const ProgId &id, const std::string &only_dom) {
     for (auto &dc : DOMS) {
       if (!only_dom.empty() && dc.e->name != only_dom) continue;
       apply_config(dc.cfg);
+      SUMMARY_CLAUSE = (dc.e->caps & (CAP_EXACT_INT | CAP_EXACT_ZONE | CAP_EXACT_OCT)) != 0;
       if (PROP != "C10") {
         for (auto &tp : td_menu()) {
           std::string ctx = "[" + dc.e->name + " " + dc.cfg.name + " td(" + tp.name + ") init=" + in.name + "] " + P.str();
@@ -687,6 +693,7 @@ void run_program(const ProgId &id, const std::string &only_dom) {
               n_analyses++;
               g_max_ticks = std::max(g_max_ticks, g_ticks);
               check_invariants(a, P, O, refs, dc.e->name + "/" + dc2.e->name, cspec, ctx, {});
+              SUMMARY_CLAUSE = true; // the bottom-up summary has precondition top: nothing to decide
               check_summaries(a, P, O, refs, dc.e->name + "/" + dc2.e->name, cspec, ctx);
               if (PROP == "C02") { // C02: the generic inter-procedural checker on top of the summary-based analyzer
                 typedef crab::checker::inter_checker<bu_t> checker_t;
